@@ -302,7 +302,11 @@ func (ri *RedisInput) syncMeta(ctx context.Context, redisCli *redis.StandaloneRe
 		ri.logger.Errorf("channel SetRunId error : offset(%v), err(%v)", sOffset, err)
 		return
 	}
-	err = ri.output.SetRunId(ctx, sOffset.RunId)
+	if isFullSync {
+		err = ri.output.ResetRunId(ctx, sOffset.RunId)
+	} else {
+		err = ri.output.SetRunId(ctx, sOffset.RunId)
+	}
 	if err != nil {
 		ri.logger.Errorf("output SetRunId error : offset(%v), err(%v)", sOffset, err)
 		return
